@@ -442,58 +442,91 @@ def _deprecation_and_hiding(ck, repo):
     oi = ni.methods.get("on_introspection")
     r = FuncView(oi).returns() if oi else []
     ck.ob("@nonIntrospectable answers None for the element (hidden)", oi is not None and len(r) == 1 and unparse(r[0].value) == "None", oi, oi.node if oi else ni.node, construct="hidden:hook")
-    e = repo.func("tartiflette/utils/directives.py", "execute_introspection_directive")
-    ev = FuncView(e)
-    und = [x for x in ev.returns() if unparse(x.value) == "UNDEFINED_VALUE"]
-    ok = len(und) == 1 and ("result", "F") in ev.conditions(und[0])
-    ck.ob("execute_introspection_directive maps a falsy hook result to the undefined marker", ok, e, und[0] if und else e.node, construct="hidden:undefined")
-    x = repo.func("tartiflette/utils/directives.py", "introspection_directives_executor")
-    xv = FuncView(x)
-    comp = [n for n in walk_no_nested(x.node) if isinstance(n, ast.ListComp) and n.generators[0].ifs]
-    ok = len(comp) == 1 and unparse(comp[0].generators[0].ifs[0]) == f"not is_invalid_value({unparse(comp[0].generators[0].target)})"
-    ck.ob("introspection_directives_executor drops exactly the hidden elements of a list", ok, x, comp[0] if comp else x.node, construct="hidden:list")
-    nr = [r_ for r_ in xv.returns() if unparse(r_.value) == "None"]
-    ck.ob("introspection_directives_executor answers null for a hidden single element", len(nr) == 1 and any(t.startswith("is_invalid_value(") and o == "T" for t, o in xv.conditions(nr[0])), x,
-          nr[0] if nr else x.node, construct="hidden:single")
-    # decision tables of the two hiding helpers
-    atoms = Atoms({"element.introspection_directives": "has_hooks", "result": "kept"})
-    for hh, kept in itertools.product([False, True], repeat=2):
-        if kept and not hh:
-            continue
-        val = {"has_hooks": hh, "kept": kept}
-        got = set()
-        for tr in ev.cfg.simulate(lambda n, env: evaluate(n.ast, env, val, atoms)):
-            rv = _ret_class(tr)
-            got.add(rv if isinstance(rv, str) else unparse(rv))
-        want = e.positional_params[0] if not hh else ("result" if kept else "UNDEFINED_VALUE")
-        ck.ob(f"execute_introspection_directive table {val}", got == {want}, e, e.node, construct=f"hidden:element-table:{int(hh)}{int(kept)}", detail=f"got {sorted(got)}, want {want}" + atoms.note())
-    hc = [c_ for c_ in ev.calls() if unparse(c_.func) == "element.introspection_directives"]
-    ok = len(hc) == 1 and ev.is_awaited(hc[0]) and [unparse(a) for a in hc[0].args] == e.positional_params[:3]
-    ck.ob("execute_introspection_directive: the element's own on_introspection chain is awaited with (element, ctx, info)", ok, e, hc[0] if hc else e.node, construct="hidden:element-call")
-    atoms = Atoms({f"isinstance({x.positional_params[0]}, list)": "is_list", "is_invalid_value(computed_element)": "hidden"})
-    for il, hid in itertools.product([False, True], repeat=2):
-        if il and hid:
-            continue
-        val = {"is_list": il, "hidden": hid}
-        got = set()
-        for tr in xv.cfg.simulate(lambda n, env: evaluate(n.ast, env, val, atoms)):
-            rv = _ret_class(tr)
-            t = rv if isinstance(rv, str) else unparse(rv)
-            got.add("filtered-list" if t.startswith("[") else t)
-        want = "filtered-list" if il else ("None" if hid else "computed_element")
-        ck.ob(f"introspection_directives_executor table {val}", got == {want}, x, x.node, construct=f"hidden:executor-table:{int(il)}{int(hid)}", detail=f"got {sorted(got)}, want {want}" + atoms.note())
-    g_ = xv.maybe_call("gather")
-    ok = g_ is not None and xv.is_awaited(g_) and len(g_.args) == 1 and isinstance(g_.args[0], ast.Starred) and isinstance(g_.args[0].value, ast.ListComp) and \
-        unparse(g_.args[0].value.generators[0].iter) == x.positional_params[0] and not g_.args[0].value.generators[0].ifs and \
-        unparse(g_.args[0].value.elt).startswith(f"execute_introspection_directive({unparse(g_.args[0].value.generators[0].target)}, ")
-    ck.ob("introspection_directives_executor: every item of a list goes through its own hooks, results in list order", ok and comp and unparse(comp[0].generators[0].iter) == "results" and
-          unparse(comp[0].elt) == unparse(comp[0].generators[0].target), x, g_ or x.node, construct="hidden:list-items")
+    hidden_element_terms(ck, repo)
     _introspection_roots(ck, repo, "answers")
     f = repo.func("tartiflette/resolver/factory.py", "resolve_field_value_or_error")
     fv = FuncView(f)
     c = fv.maybe_call("introspection_directives_executor")
     ok = c is not None and fv.guarded(c, lambda t: t == f"{f.positional_params[5]}.is_introspection", "T") and unparse(c.args[0]) == "result"
     ck.ob("resolved introspection elements pass through the hiding executor", ok, f, c or f.node, construct="hidden:applied")
+
+
+def hidden_element_terms(ck, repo):
+    """E13: introspection_directives_executor interpreted on abstract resolved values - single elements and lists of up to three
+    items, each item being a value without hooks (no `introspection_directives` attribute at all, or the attribute None), an
+    element whose on_introspection chain answers a replacement, or an element whose chain answers None (hidden, what
+    @nonIntrospectable does).  A hidden single element becomes null, a hidden item is dropped from its list, the others
+    keep their order and are what their own chain answered; every chain is awaited once with (element, ctx, info) positional
+    and the request's context_coercer by keyword - however the two helpers are written."""
+    from .. import absint
+    from ..absint import RecV, Sym
+    import itertools as _it
+    x = repo.func("tartiflette/utils/directives.py", "introspection_directives_executor")
+    ctx, info, cc = Sym("ctx"), Sym("info"), Sym("context_coercer")
+    n, bad = 0, []
+    kinds = ("plain", "nohooks", "shown", "hidden")
+
+    def run(value_of):
+        calls = []
+
+        def hook(tag, answer):
+            def stub(args, kwargs):
+                calls.append((tag, list(args), dict(kwargs)))
+                return answer
+            return stub
+        stubs = {"asyncio.gather": lambda args, kwargs: list(args)}
+        made = []
+
+        def mk(kind, i):
+            if kind == "plain":
+                v = RecV("dict", _label=f"plain{i}", _strict=True)
+            elif kind == "nohooks":
+                v = RecV("GraphQLField", introspection_directives=None, _label=f"nohooks{i}", _strict=True)
+            else:
+                v = RecV("GraphQLField", introspection_directives=Sym(f"chain:{kind}{i}"), _label=f"{kind}{i}", _strict=True)
+                stubs[f"chain:{kind}{i}"] = hook(f"{kind}{i}", Sym(f"answer{i}") if kind == "shown" else None)
+            made.append((kind, i, v))
+            return v
+        value = value_of(mk)
+        it = absint.Interp(repo, x.module, interpret={"tartiflette.utils.values.is_invalid_value", "tartiflette.utils.directives.execute_introspection_directive"}, stubs=stubs, fuel=4000)
+        try:
+            got = it.run(x, [value, ctx, info], {"context_coercer": cc})
+            why = None
+        except absint.Unsupported as ex:
+            raise AnalysisError(f"{x.short}: cannot be interpreted on abstract introspection elements: {ex}")
+        except absint.PyRaise as ex:
+            got, why = None, f"raises {ex.name} ({ex.text})"
+        return got, why, made, calls
+
+    def out(kind, i, v):
+        return v if kind in ("plain", "nohooks") else (Sym(f"answer{i}") if kind == "shown" else None)
+
+    def check(tag, got, why, made, calls, want):
+        nonlocal n
+        n += 1
+        if why is not None:
+            bad.append((tag, why))
+            return
+        if absint.norm(got) != absint.norm(want) or type(got) is not type(want):
+            bad.append((tag, f"answers {got!r}, expected {want!r}"))
+            return
+        exp_calls = [(f"{k}{i}", [v, ctx, info], {"context_coercer": cc}) for k, i, v in made if k in ("shown", "hidden")]
+        if absint.norm([list(c) for c in calls]) != absint.norm([list(c) for c in exp_calls]):
+            bad.append((tag, f"chains called {calls!r}, expected {exp_calls!r}"))
+
+    for k in kinds:
+        got, why, made, calls = run(lambda mk, k=k: mk(k, 0))
+        check(f"single {k}", got, why, made, calls, out(*made[0]))
+    for size in range(0, 4):
+        for combo in _it.product(kinds, repeat=size):
+            got, why, made, calls = run(lambda mk, combo=combo: [mk(k, i) for i, k in enumerate(combo)])
+            want = [out(k, i, v) for k, i, v in made if k != "hidden"]
+            check("list of " + ",".join(combo), got, why, made, calls, want)
+    for tag, why in bad[:6]:
+        ck.ob(f"hiding executor on {tag}", False, x, x.node, construct=f"hidden:terms:{tag}"[:100], detail=why)
+    ck.ob("introspection_directives_executor: a hidden single element is null, hidden items are dropped from their list, every other element is what its own chain answered, in order; "
+          "each chain is awaited once with (element, ctx, info) and context_coercer", not bad, x, x.node, construct="hidden:terms", evals=n)
+    ck.count("hidden_element_terms", n, 60)
 
 
 def schema_extension_merges(ck, repo):
